@@ -5,6 +5,7 @@
 import ChialispModel.Drv.Base
 import ChialispModel.Drv.Conv
 import ChialispModel.Drv.Src
+import ChialispModel.Drv.Opt
 import ChialispModel.Drv.Atomic
 import ChialispModel.Drv.Deps
 import ChialispModel.Drv.Step
@@ -17,6 +18,7 @@ def main (args : List String) : IO UInt32 := do
   | ["base"] => Drv.Base.run; return 0
   | ["conv"] => Drv.Conv.run; return 0
   | ["src"] => Drv.Src.run; return 0
+  | ["opt"] => Drv.Opt.run; return 0
   | ["atomic"] => Drv.Atomic.run; return 0
   | ["deps"] => Drv.Deps.run; return 0
   | ["step"] => Drv.Step.run; return 0
